@@ -31,6 +31,9 @@ def dispatch(pid: str, tier: str) -> int:
     if pid in ('C01', 'C02', 'C03', 'C20'):
         from harness import check_lmf
         return getattr(check_lmf, pid.lower())(tier)
+    if pid == 'C16':
+        from harness import check_det
+        return check_det.c16(tier)
     raise MachineryError(f'no check for {pid}')
 
 
